@@ -531,7 +531,8 @@ fn zero_fill_stream<F: Read + Write + Seek>(
         io::copy(&mut io::repeat(0).take(stream_len - from), &mut chain)?;
     } else {
         let sector_len = minialloc.version().sector_len() as u64;
-        let end = stream_len.min(from.div_ceil(sector_len) * sector_len);
+        let end = stream_len
+            .min(from.div_ceil(sector_len).saturating_mul(sector_len));
         if end > from {
             let mut chain =
                 minialloc.open_chain(start_sector, SectorInit::Zero)?;
